@@ -126,33 +126,52 @@ Section Spend.
     | _ => ([], ts)
     end.
 
-  (* (family, true when the checking opcode is the VERIFY form followed by OP_1) *)
+  (* the element sequence of a family member (separators erased); pushes are direct pushes (push opcode = length).
+     vf: the checking opcode is the VERIFY form followed by OP_1 *)
+  Definition push_tok (d : bytes) : tok := TPush (N.of_nat (length d)) d.
+  Definition tail_toks (chk : N) (vf : bool) : list tok := if vf then [TOp (chk + 1); TOp 81] else [TOp chk].
+  Definition shape (fam : family) (vf : bool) : list tok :=
+    match fam with
+    | FP2PK pk => push_tok pk :: tail_toks 172 vf
+    | FP2PKH h => [TOp 118; TOp 169; push_tok h; TOp 136] ++ tail_toks 172 vf
+    | FMS m keys => TOp (80 + N.of_nat m) :: map push_tok keys ++ [TOp (80 + N.of_nat (length keys))] ++ tail_toks 174 vf
+    end.
+
+  Definition tok_eqb (a b : tok) : bool :=
+    match a, b with
+    | TOp x, TOp y => (x =? y)%N
+    | TPush c d, TPush c' d' => (c =? c')%N && bytes_eqb d d'
+    | _, _ => false
+    end.
+  Fixpoint toks_eqb (a b : list tok) : bool :=
+    match a, b with
+    | [], [] => true
+    | x :: r, y :: r' => tok_eqb x y && toks_eqb r r'
+    | _, _ => false
+    end.
+
+  (* which family the first elements point to; the whole sequence is then compared with the family's shape *)
+  Definition guess (core : list tok) : option family :=
+    match core with
+    | TPush _ pk :: _ => Some (FP2PK pk)
+    | TOp 118 :: _ :: TPush _ h :: _ => Some (FP2PKH h)
+    | tm :: r => match small_int tm with Some m => Some (FMS m (fst (take_pushes r))) | None => None end
+    | [] => None
+    end.
+  Definition family_ok (fam : family) : bool :=
+    match fam with
+    | FMS m keys => Nat.leb 1 m && Nat.leb m (length keys) && Nat.leb (length keys) 16
+    | _ => true
+    end.
   Definition recognise (lock : list tok) : option (family * bool) :=
-    match erase_separators lock with
-    | [TPush _ pk; TOp 172] => Some (FP2PK pk, false)
-    | [TPush _ pk; TOp 173; TOp 81] => Some (FP2PK pk, true)
-    | [TOp 118; TOp 169; TPush _ h; TOp 136; TOp 172] => Some (FP2PKH h, false)
-    | [TOp 118; TOp 169; TPush _ h; TOp 136; TOp 173; TOp 81] => Some (FP2PKH h, true)
-    | tm :: r =>
-        match small_int tm with
-        | None => None
-        | Some m =>
-            let '(keys, rest) := take_pushes r in
-            match rest with
-            | [tn; TOp 174] =>
-                match small_int tn with
-                | Some n => if Nat.eqb n (length keys) && Nat.leb m n then Some (FMS m keys, false) else None
-                | None => None
-                end
-            | [tn; TOp 175; TOp 81] =>
-                match small_int tn with
-                | Some n => if Nat.eqb n (length keys) && Nat.leb m n then Some (FMS m keys, true) else None
-                | None => None
-                end
-            | _ => None
-            end
-        end
-    | _ => None
+    let core := erase_separators lock in
+    match guess core with
+    | None => None
+    | Some fam =>
+        if negb (family_ok fam) then None
+        else if toks_eqb core (shape fam false) then Some (fam, false)
+        else if toks_eqb core (shape fam true) then Some (fam, true)
+        else None
     end.
 
   (* push-only unlocking script: the elements it leaves on the stack, bottom first *)
